@@ -756,6 +756,7 @@ class Verifier:
                     ok = issubclass(outcome[1], tuple(allowed)) if allowed else False
                     r = check_goal(st, name, ok, kind='post', concretise=conc)
                     if not ok:
+                        r.kind = 'raises'      # an exception the clause does not allow (C09 states this for every clause)
                         r.detail += '; path raises %s, contract allows %s' % (
                             outcome[1].__name__, '/'.join(a.__name__ for a in allowed) or 'no exception')
                     results.append(r)
@@ -847,7 +848,11 @@ State.oblige = _oblige
 def concretise_value(st, v, m):
     ev = lambda t: m.eval(t, model_completion=True)
     if isinstance(v, SInt):
-        return ev(v.t).as_long()
+        n = ev(v.t).as_long()
+        if any(v is x for x in getattr(st, 'subclass_values', ())):
+            from . import values as _values
+            return _values.IntSub(n)          # the path took the 'type(v) is a subclass of int' branch
+        return n
     if isinstance(v, SBool):
         return z3.is_true(ev(v.t))
     if isinstance(v, SBytes):
